@@ -15,7 +15,7 @@ MANUAL = {  # seed@prop -> (job, tier): checks added/strengthened after the seed
     'C17-5@C17': ('c17_file_schema_spec_n2', 'quick'), 'C17-6@C17': ('c13_sem_parse_schema_element', 'quick'),
     'C19-6@C19': ('c19_ensure_row_group_b', 'quick'), 'C14-1@C14': ('c14_crc32_plain_len04', 'quick'),
     'C08-2@C08': ('c08_lz4_decompress', 'quick'), 'C10-4@C10': ('c08_snappy_decompress', 'quick'),
-    'C11-2@C11': ('c08_rle_decoder_has_next', 'quick'), 'C19-7@C19': ('c18_create_b', 'quick'), 'C19-8@C19': ('c09_compress_data', 'quick'),
+    'C11-2@C11': ('c08_rle_decoder_has_next', 'quick'), 'C12-3@C12': ('c11_rle_encoder_flush', 'quick'), 'C19-7@C19': ('c18_create_b', 'quick'), 'C19-8@C19': ('c09_compress_data', 'quick'),
 }
 SKIP = {'C09-1@C09': 'detected in the thorough tier by c09_lz4_compress_rest (about 50 min; not re-run in this pass)',
         'C10-3@C10': 'detected in the thorough tier by c09_lz4_compress_rest (about 50 min; not re-run in this pass)'}
